@@ -111,6 +111,8 @@ def run(ctx):
 
     def one(item):
         tag, subst, sim = item
+        if tag == "linear":
+            return tag, linear(ctx)
         if tag == "mc":
             return tag, lib.run_tlc(ctx, "UserDB", "UserDB_mc.cfg", subst, workers=per, tag="mc", timeout=1500, env=jenv)
         if sim:
@@ -119,9 +121,14 @@ def run(ctx):
         return tag, lib.run_tlc(ctx, "UserDBGen", "UserDBGen.cfg", subst, workers=lib.NCPU if tag.startswith("deep") else per,
                                 tag="gen_" + tag, timeout=1500, env=jenv)
 
-    items = [("mc", mc, None)] + runs
+    # the concurrent driver runs first, next to the TLC jobs (no other go run is active: one overlay file)
+    items = [("linear", None, None), ("mc", mc, None)] + runs
+    lin = None
     with open(inp, "w") as fh, concurrent.futures.ThreadPoolExecutor(max_workers=len(items)) as ex:
         for tag, r in ex.map(one, items):
+            if tag == "linear":
+                lin = r
+                continue
             lib.require_ok(r, tag)
             if tag == "mc":
                 ctx.log("model check UserDB depth %s: %d distinct states, %.1fs" % (mc["DEPTH"], r.distinct, r.wall))
@@ -149,17 +156,24 @@ def run(ctx):
         raise lib.Inconclusive("the driver could not decode %d behaviours" % res["stats"]["undecodable"])
     status = {k: v for k, v in res["stats"].items() if k.startswith("status:")}
     cov = {
-        "evaluations": res["evaluations"] + srv["evaluations"],
-        "distinct_nontrivial": res["distinct_nontrivial"] + srv["distinct_nontrivial"],
+        "evaluations": res["evaluations"] + srv["evaluations"] + lin["evaluations"],
+        "distinct_nontrivial": res["distinct_nontrivial"] + srv["distinct_nontrivial"] + lin["distinct_nontrivial"],
+        "concurrent_episodes": lin["stats"].get("episodes", 0),
+        "concurrent_episodes_overlapped": lin["stats"].get("episodes_overlapped", 0),
+        "trace_events_validated": lin["stats"].get("trace_events", 0),
+        "trace_accepted": lin["_accepted"],
         "rule": "behaviours = every path of UserDBGen with exactly MaxOps operations for each exhaustive alphabet (%s) plus "
                 "TLC -simulate paths; operations: POST with a field subset of the classes none / one / all-but-one / all and a "
                 "value class of {min,-1,0,1,max}, POST with mismatching UIDs, 52 malformed requests (7 kinds), DELETE, close+reopen, "
                 "usage upload; after every step GET u1, GET u2, LIST are compared with the model's store. non-trivial = an "
                 "accepted write of a proper subset of the fields, or a rejected request / reopen after an accepted write; "
                 "distinct = distinct operation lists. connect: every distinct record of the expected stores, non-trivial = "
-                "partial record or refused connection" % ", ".join("%s=%d" % kv for kv in sorted(counts.items())),
-        "samples": res["samples"] + srv["samples"],
-        "traces_validated_against_impl": total,
+                "partial record or refused connection. concurrent (B2): episodes of 2-4 overlapping POST/DELETE/upload/GET/LIST "
+                "on 1-2 UIDs from 2-4 goroutines after a sequential set-up, each followed by GET u1, GET u2, LIST; the "
+                "call/return recording is validated by TLC against UserDBTrace (state change = silent UserDB action "
+                "between call and return); non-trivial = at least 2 concurrent operations" % ", ".join("%s=%d" % kv for kv in sorted(counts.items())),
+        "samples": res["samples"] + srv["samples"] + lin["samples"][:1],
+        "traces_validated_against_impl": total + (lin["stats"].get("episodes", 0) if lin["_accepted"] else 0),
         "behaviours_replayed": total,
         "behaviours_per_run": counts,
         "steps_replayed": res["stats"].get("steps", 0),
@@ -168,16 +182,66 @@ def run(ctx):
         "http_status_seen": status,
         "consumer_result_diff": diffs,
         "exhaustive": True,
-        "checker_cmd": "tlc UserDB.tla / UserDBGen.tla + go test -run TestVerifC18Replay ./internal/server/usermanager/ "
+        "checker_cmd": "tlc UserDB.tla / UserDBGen.tla / UserDBTrace.tla + go test -run TestVerifC18Linear + go test -run TestVerifC18Replay ./internal/server/usermanager/ "
                        "+ go test -run TestVerifC18Connect ./internal/server/",
     }
     return lib.finish(ctx, LEVEL, cov, ASSUME)
+
+
+def linear(ctx, episodes=None):
+    """B2: overlapping requests recorded from the real code, validated by TLC against UserDBTrace.tla."""
+    env = {"VERIF_C18_EPISODES": episodes or (600 if ctx.quick() else 6000)}
+    env.update(tmp_env())
+    tr = lib.run_go(ctx, "usermanager", "TestVerifC18Linear", env=env, timeout=900)
+    lib.collect_go(ctx, tr)
+    tpath = os.path.join(tr["_out_dir"], "c18_trace.ndjson")
+    eps = [json.loads(x) for x in open(os.path.join(tr["_out_dir"], "c18_episodes.ndjson"))]
+    v = lib.run_tlc(ctx, "UserDBTrace", "UserDBTrace.cfg", workers=1, env={"VERIF_TRACE": tpath},
+                    expect_violation=True, tag="trace", dfs=True, timeout=900)
+    tr["_accepted"] = bool(v.ok)
+    flagged = [e for e in eps if not e["explainable"]]
+    ctx.log("concurrent: %d episodes (%d overlapped), %d events, TLC accepted=%s (%d states, %.1fs), permutation check flags %d" % (
+        len(eps), tr["stats"].get("episodes_overlapped", 0), tr["stats"].get("trace_events", 0), v.ok, v.distinct, v.wall, len(flagged)))
+    if tr["violations"]:
+        return tr  # a panic ended the recording early; the trace is incomplete by construction
+    if v.ok:
+        if flagged:
+            raise lib.Inconclusive("the permutation check rejects episode %s but TLC accepts the recording: the two "
+                                   "formulations disagree" % json.dumps(flagged[0]["episode"]))
+        return tr
+    if v.violated not in ("postcondition", None) and not v.rejected_at:
+        ctx.violations.append({"key": "trace-invariant:" + str(v.violated), "what": "invariant %s fails on a recorded "
+                               "execution" % v.violated, "replay": {"cex": v.cex[-2:]}})
+        return tr
+    line = v.rejected_at or 0
+    ep = next((e for e in eps if e["first"] <= line <= e["last"]), None)
+    if ep is None:
+        raise lib.Inconclusive("TLC rejects the recording at line %s, which belongs to no episode" % line)
+    events = open(tpath).read().splitlines()[ep["first"] - 1:ep["last"]]
+    ctx.violations.append({
+        "key": ep["key"],
+        "what": "overlapping requests %s (after set-up %s) left a state / returned reads that no order of these requests "
+                "explains: event %d of the recording cannot be matched (%s); permutation check agrees: %s" % (
+                    json.dumps(ep["episode"]["conc"]), json.dumps(ep["episode"]["setup"]), line,
+                    events[line - ep["first"]] if 0 <= line - ep["first"] < len(events) else "?", not ep["explainable"]),
+        "replay": {"episode": ep["episode"], "conc_seen": ep["conc_seen"], "back_seen": ep["back_seen"], "events": events}})
+    # every further episode the permutation check flags is reported under its own key (TLC stops at the first)
+    for e in flagged:
+        if e["n"] != ep["n"]:
+            ctx.violations.append({"key": e["key"], "what": "no order of %s explains the read-back (permutation check; TLC had "
+                                   "already rejected the recording at an earlier episode)" % json.dumps(e["episode"]["conc"]),
+                                   "replay": {"episode": e["episode"], "conc_seen": e["conc_seen"], "back_seen": e["back_seen"]}})
+    return tr
 
 
 def replay(ctx, path):
     rp = json.load(open(path))
     env = {"VERIF_REPLAY": os.path.abspath(path)}
     env.update(tmp_env())
+    if "episode" in (rp.get("replay") or {}):
+        res = lib.run_go(ctx, "usermanager", "TestVerifC18Linear", env=env, extra_args=["-v"])
+        print(open(os.path.join(res["_out_dir"], "go.out")).read())
+        return 0
     if "record" in (rp.get("replay") or {}):
         res = lib.run_go(ctx, "server", "TestVerifC18Connect", env=env, harness_dirs=["server"], extra_args=["-v"])
     else:
